@@ -9,6 +9,7 @@ CONSTANTS
   MaxTime = 2
   Duration = 1
   Lease = 1
+  ImportOn = FALSE
   MaxRec = 1
   Bug = {"KeylessResume"}
 CONSTRAINT LegitOnly
